@@ -20,8 +20,15 @@ struct Op {
 };
 struct Case {
     uint32_t period = 4096;
+    bool edge_words = false; // every third word sent is 0xFFFF / 0x0000 / 0x8000 / 0x7FFF instead of its serial tag
     std::vector<Op> ops;
 };
+
+/// the word sent for serial number n (tags are non-zero and increasing; edge values test that any 16-bit word is a word)
+inline uint16_t word_of(uint16_t serial, bool edge_words) {
+    static const uint16_t kEdge[4] = {0xFFFF, 0x0000, 0x8000, 0x7FFF};
+    return edge_words && serial % 3 == 1 ? kEdge[(serial / 3) % 4] : serial;
+}
 
 struct Frame {
     int16_t l, r;
@@ -91,6 +98,8 @@ struct Model {
 
 std::string encode(const Case& c) {
     std::string s = "period " + vf::hex(c.period) + "\n";
+    if (c.edge_words)
+        s += "edgewords 1\n";
     for (auto& op : c.ops)
         s += std::string(kKindName[op.kind]) + " " + vf::hex(op.arg) + "\n";
     return s;
@@ -103,6 +112,10 @@ Case decode(const std::string& text) {
             continue;
         if (t[0] == "period") {
             c.period = (uint32_t)vf::unhex(t[1]);
+            continue;
+        }
+        if (t[0] == "edgewords") {
+            c.edge_words = vf::unhex(t[1]) != 0;
             continue;
         }
         Op op;
@@ -187,10 +200,11 @@ rc::Gen<Case> genCase() {
         {5, gen::map(sel(0, 6), [](uint64_t v) { return Op{Tick, v}; })},
         {6, gen::map(sel(0, 6), [](uint64_t v) { return Op{Skip, v}; })},
     });
-    return gen::map(gen::pair(periodGen, gen::container<std::vector<Op>>(opGen)), [](std::pair<uint32_t, std::vector<Op>> p) {
+    return gen::map(gen::tuple(periodGen, gen::container<std::vector<Op>>(opGen), gen::element<int>(0, 0, 1)), [](std::tuple<uint32_t, std::vector<Op>, int> p) {
         Case c;
-        c.period = p.first;
-        c.ops = std::move(p.second);
+        c.period = std::get<0>(p);
+        c.ops = std::move(std::get<1>(p));
+        c.edge_words = std::get<2>(p) != 0;
         return c;
     });
 }
@@ -251,9 +265,9 @@ vf::Result check(const Case& cs) {
                     ++serial;
                     if (m.q.size() == 16)
                         vf::klass("send to a full queue (dropped)");
-                    a.b.Send(serial);
-                    b.b.Send(serial);
-                    m.send(serial);
+                    a.b.Send(word_of(serial, cs.edge_words));
+                    b.b.Send(word_of(serial, cs.edge_words));
+                    m.send(word_of(serial, cs.edge_words));
                 }
                 if (m.q.size() == 16)
                     vf::klass("queue full after send");
@@ -342,7 +356,9 @@ vf::Result check(const Case& cs) {
             return r;
     }
     // conservation: drain what is left (only for short periods) and account for every word sent
-    if (cs.period <= 1024) {
+    if (cs.edge_words)
+        vf::klass("history with edge-valued words (0xFFFF, 0, 0x8000, 0x7FFF)");
+    if (cs.period <= 1024 && !cs.edge_words) { // (the order / count bookkeeping below relies on non-zero increasing tags)
         a.b.SetTransmitEnable(1);
         m.enabled = true;
         for (int guard = 0; guard < 9 * 1024 + 10 && !m.q.empty(); ++guard) {
@@ -450,8 +466,8 @@ vf::Result pcheck(const PCase& cs) {
             switch (op.kind) {
             case 0:
                 for (uint64_t k = 0; k < 1 + op.a % 5; ++k, ++serial) {
-                    A.b.Send(serial);
-                    B.b.Send(serial);
+                    A.b.Send(word_of(serial, (op.a >> 8) & 1));
+                    B.b.Send(word_of(serial, (op.a >> 8) & 1));
                 }
                 trace += "send*" + std::to_string(1 + op.a % 5) + " ";
                 break;
@@ -583,8 +599,8 @@ vf::Result fcheck(const FCase& cs) {
         switch (op.kind) {
         case 0:
             for (uint64_t k = 0; k < 1 + op.a % 6; ++k, ++serial) {
-                t.MMIOWrite(0x2C6 + base, serial);
-                m[op.port].send(serial);
+                t.MMIOWrite(0x2C6 + base, word_of(serial, (op.a >> 8) & 1));
+                m[op.port].send(word_of(serial, (op.a >> 8) & 1));
             }
             trace += "send" + std::to_string(op.port) + "*" + std::to_string(1 + op.a % 6) + " ";
             break;
